@@ -218,7 +218,7 @@ class DepSet(boolean.AndRestriction, caching=False):
     @property
     def node_conds(self):
         if self._node_conds is False:
-            object.__setattr__(self, "_node_conds", {})
+            return {}
         elif self._node_conds is True:
             nc = {}
 
@@ -246,7 +246,10 @@ class DepSet(boolean.AndRestriction, caching=False):
 
     @property
     def has_conditionals(self):
-        return bool(self._node_conds)
+        # _node_conds is False (no conditionals), True (not yet computed) or the
+        # computed mapping, which is empty when every conditional leaf is also
+        # reachable unconditionally: the conditionals are still there.
+        return self._node_conds is not False
 
     @property
     def known_conditionals(self):
